@@ -1,10 +1,20 @@
 # C19: container headers vs Coq models (coq/C19/*.v), theorems in coq/Properties_C19.v
-import os, sys
+#
+# Tie: hand-written models => correspondence.  The same op scripts are run on the real headers
+# (harness/c19_adt.c, compiled against $VERIF_REPO) and on the model extracted from Coq
+# (ocaml/driver_c19.ml); every observation is diffed.  Output tokens starting with '#' are
+# bookkeeping (capacity, realloc events, word length of a bitmap, collisions, slot layout): the
+# property does not talk about them, the models do.  A disagreement on any other token is a concrete
+# failing input (=> finding); a disagreement on '#'-tokens only means the model no longer describes
+# the code although no property observable differs (=> tie broken, "no-failing-input-found").
+import os, sys, json, itertools
 import vlib
 
 LEVEL = 'proof'
+KINDS = ['varr']  # 'bitmap' is switched on once fixes/C19-1.patch is committed to /repo
 
 
+# ------------------------------------------------------------------ generators
 def gen_varr(rng, nops):
     init = rng.choice([0, 1, 2, 3, 5, 64])
     n = 0
@@ -37,40 +47,149 @@ def gen_varr(rng, nops):
     return 'varr %d : ' % init + ' ; '.join(ops)
 
 
-def same(a, b):
-    """token-wise comparison; '?' in the model output is a wildcard (undefined cell)"""
+BOUNDARY_BITS = [0, 1, 62, 63, 64, 65, 126, 127, 128, 129, 191, 192, 200, 255, 256]
+BOUNDARY_LENS = [0, 1, 2, 62, 63, 64, 65, 66, 127, 128, 129, 130, 192]
+OP2 = ['and', 'andc', 'ior']
+OP3 = ['iorand', 'iorandc']
+
+
+def gen_bitmap(rng, nops):
+    """random script biased to word boundaries and aliased operands"""
+    nb = rng.choice([1, 2, 2, 3, 3, 4])
+    maxbit = rng.choice([70, 140, 300])
+
+    def bit():
+        if rng.random() < 0.6:
+            return rng.choice([b for b in BOUNDARY_BITS if b <= maxbit])
+        return rng.randint(0, maxbit)
+
+    def bm():
+        return rng.randrange(nb)
+    ops = []
+    for _ in range(nops):
+        k = rng.random()
+        if k < 0.22:
+            ops.append('set %d %d' % (bm(), bit()))
+        elif k < 0.30:
+            ops.append('clr %d %d' % (bm(), bit()))
+        elif k < 0.38:
+            ln = rng.choice(BOUNDARY_LENS) if rng.random() < 0.6 else rng.randint(0, 140)
+            ops.append('%s %d %d %d' % (rng.choice(['setr', 'clrr']), bm(), bit(), ln))
+        elif k < 0.58:
+            ops.append('%s %d %d %d' % (rng.choice(OP2), bm(), bm(), bm()))
+        elif k < 0.72:
+            ops.append('%s %d %d %d %d' % (rng.choice(OP3), bm(), bm(), bm(), bm()))
+        elif k < 0.76:
+            ops.append('copy %d %d' % (bm(), bm()))
+        elif k < 0.80:
+            ops.append('%s %d %d' % (rng.choice(['eq', 'isect']), bm(), bm()))
+        elif k < 0.86:
+            ops.append('%s %d' % (rng.choice(['empty', 'count', 'min', 'max']), bm()))
+        elif k < 0.89:
+            ops.append('bit %d %d' % (bm(), bit()))
+        elif k < 0.92:
+            ops.append('iter %d' % bm())
+        elif k < 0.94:
+            ops.append('iinit %d' % bm())
+        elif k < 0.97:
+            ops.append('inext')
+        elif k < 0.985:
+            ops.append('expand %d %d' % (bm(), bit()))
+        else:
+            ops.append('clear %d' % bm())
+    return 'bitmap %d : ' % nb + ' ; '.join(ops)
+
+
+def bitmap_state_sweep(bits, tails):
+    """exhaustive op2/op3 sweep: every assignment of values (subset of `bits`, plus t trailing zero
+    words for t in tails) to three bitmaps, every op, every choice of operand ids (all aliasing
+    patterns).  Masters are kept in bitmaps 3..5 and copied back before each op."""
+    vals = []
+    for r in range(len(bits) + 1):
+        for sub in itertools.combinations(bits, r):
+            for t in tails:
+                vals.append((sub, t))
+    ids3 = list(itertools.product(range(3), repeat=3))
+    ids4 = list(itertools.product(range(3), repeat=4))
+    for combo in itertools.product(vals, repeat=3):
+        ops = []
+        for k, (sub, t) in enumerate(combo):
+            for b in sub:
+                ops.append('set %d %d' % (3 + k, b))
+            if t:
+                top = (max(sub) // 64 + 1 if sub else 0) + t
+                ops.append('expand %d %d' % (3 + k, top * 64))
+        restore = ['copy 0 3', 'copy 1 4', 'copy 2 5']
+        for o in OP2:
+            for d, a, b in ids3:
+                ops += restore + ['%s %d %d %d' % (o, d, a, b)]
+        for o in OP3:
+            for d, a, b, c in ids4:
+                ops += restore + ['%s %d %d %d %d' % (o, d, a, b, c)]
+        yield 'bitmap 6 : ' + ' ; '.join(ops)
+
+
+def bitmap_seq_sweep(L):
+    """every op sequence of length L over a tiny alphabet on two bitmaps"""
+    alpha = []
+    for b in (0, 1):
+        for n in (0, 64):
+            alpha += ['set %d %d' % (b, n), 'clr %d %d' % (b, n)]
+        alpha += ['setr %d 63 2' % b, 'clrr %d 62 3' % b, 'iter %d' % b]
+    for d, a, b in itertools.product((0, 1), repeat=3):
+        alpha += ['%s %d %d %d' % (o, d, a, b) for o in OP2]
+    alpha += ['iorandc 0 0 1 0', 'iorand 1 0 0 1', 'copy 0 1', 'copy 1 0', 'eq 0 1']
+    for seq in itertools.product(alpha, repeat=L):
+        yield 'bitmap 2 : ' + ' ; '.join(seq)
+
+
+GEN = {'varr': gen_varr, 'bitmap': gen_bitmap}
+
+
+# ------------------------------------------------------------------ comparison
+def cmp_lines(a, b):
+    """a = implementation line, b = model line.  Returns 'same' | 'book' (only '#'-tokens differ)
+    | 'diff' (a property observable differs).  '?'/'v?' in the model output = undefined cell."""
+    if a == b:
+        return 'same'
     ta, tb = a.split(), b.split()
-    if len(ta) != len(tb):
-        return False
-    for x, y in zip(ta, tb):
+    ra = [t for t in ta if not t.startswith('#')]
+    rb = [t for t in tb if not t.startswith('#')]
+    if len(ra) != len(rb):
+        return 'diff'
+    for x, y in zip(ra, rb):
         if y in ('?', 'v?'):
             continue
         if x != y:
-            return False
-    return True
+            return 'diff'
+    ba = [t for t in ta if t.startswith('#')]
+    bb = [t for t in tb if t.startswith('#')]
+    return 'same' if ba == bb else 'book'
 
 
-def correspond(chk, impl, model, scripts):
-    rc1, o1, e1 = vlib.run_lines(impl, scripts)
+def run_both(impl, model, scripts):
+    """returns list of (script, impl_line, model_line, verdict) for the scripts that do not agree"""
     rc2, o2, e2 = vlib.run_lines(model, scripts)
-    bad = []
     if rc2 != 0 or len(o2) != len(scripts):
         raise vlib.BuildError('model driver failed: rc=%d %s' % (rc2, e2[-500:]))
+    rc1, o1, e1 = vlib.run_lines(impl, scripts)
+    bad = []
     if rc1 != 0 or len(o1) != len(scripts):
-        # implementation crashed on some script: find it
-        for s in scripts:
-            r, o, e = vlib.run_lines(impl, [s])
+        # the implementation crashed / hung on some script: find it (bisect by running one by one)
+        for s, m in zip(scripts, o2):
+            r, o, e = vlib.run_lines(impl, [s], timeout=20)
             if r != 0 or len(o) != 1:
-                bad.append((s, 'CRASH rc=%d %s' % (r, e[-300:]), vlib.run_lines(model, [s])[1][0]))
+                bad.append((s, 'CRASH rc=%d %s' % (r, e[-300:]), m, 'diff'))
                 break
         return bad
     for s, a, b in zip(scripts, o1, o2):
-        if not same(a, b):
-            bad.append((s, a, b))
+        v = cmp_lines(a, b)
+        if v != 'same':
+            bad.append((s, a, b, v))
     return bad
 
 
-def shrink_script(impl, model, script):
+def shrink_script(impl, model, script, verdict):
     hd, ops = script.split(':', 1)
     ops = [o.strip() for o in ops.split(';') if o.strip()]
 
@@ -79,56 +198,143 @@ def shrink_script(impl, model, script):
         r2, o2, _ = vlib.run_lines(model, [s])
         if r2 != 0 or not o2 or 'REJECT' in o2[0]:
             return False
-        r1, o1, _ = vlib.run_lines(impl, [s])
-        return r1 != 0 or not o1 or not same(o1[0], o2[0])
+        r1, o1, _ = vlib.run_lines(impl, [s], timeout=20)
+        if r1 != 0 or not o1:
+            return verdict == 'diff'
+        return cmp_lines(o1[0], o2[0]) == verdict
     sub = vlib.shrink_list(ops, fails)
     return hd + ': ' + ' ; '.join(sub)
 
 
-def run(chk):
-    quick = chk.tier == 'quick'
-    r = chk.prove()
+def first_divergence(a, b):
+    ta, tb = a.split(), b.split()
+    for i, (x, y) in enumerate(zip(ta, tb)):
+        if x != y and y not in ('?', 'v?'):
+            return 'token %d: implementation %s, model %s' % (i, x, y)
+    return 'lengths differ: implementation %d tokens, model %d' % (len(ta), len(tb))
+
+
+# ------------------------------------------------------------------ the check
+def build(chk=None):
     impl = vlib.build_harness('c19_adt', ['c19_adt.c'], units=())
     model = vlib.ocaml_build('c19', 'Extract_C19', ['c19x'], 'driver_c19.ml')
-    chk.cov['trusted_base'] += ['extraction: ExtrOcamlBasic only, no Extract Constant/Inductive of our own',
-                                'ocaml/driver_c19.ml, harness/c19_adt.c (parse + print only)']
-    scripts = []
+    return impl, model
+
+
+def script_stream(chk):
+    """yields (origin, script)"""
+    quick = chk.tier == 'quick'
     corpus = os.path.join(vlib.VERIF, 'corpus', 'c19.txt')
     if os.path.exists(corpus):
-        scripts += [l.strip() for l in open(corpus) if l.strip() and not l.startswith('#')]
-    rng = chk.rng('varr')
-    nscripts = 400 if quick else 20000
-    for i in range(nscripts):
-        scripts.append(gen_varr(rng, rng.choice([3, 8, 20, 60])))
-    for s in scripts:
-        chk.count(s, nontrivial=s.count(';') >= 2)
-        chk.dist('kinds', s.split()[0])
-        for o in s.split(':', 1)[1].split(';'):
-            w = o.split()
-            if w:
-                chk.dist('ops', w[0])
-    chk.cov['rule'] = ('seeded op scripts run on the real headers (harness/c19_adt.c) and on the extracted Coq model; '
-                      'a case is non-trivial when it has >= 3 ops; distinct by script text')
-    for s in scripts[:3]:
-        chk.sample(s)
-    bad = correspond(chk, impl, model, scripts)
-    for s, a, b in bad[:3]:
-        small = shrink_script(impl, model, s)
+        for l in open(corpus):
+            l = l.strip()
+            if l and not l.startswith('#') and l.split()[0] in KINDS:
+                yield 'corpus', l
+    budget = {'varr': 400 if quick else 20000, 'bitmap': 1500 if quick else 60000}
+    for kind in KINDS:
+        subseeds = [''] if quick else ['', 'b', 'c']
+        for ss in subseeds:
+            rng = chk.rng(kind + ss)
+            for i in range(budget[kind] // len(subseeds)):
+                yield 'random', GEN[kind](rng, rng.choice([3, 8, 20, 60] if quick else [3, 8, 20, 60, 200]))
+    if 'bitmap' in KINDS:
+        if quick:
+            for s in bitmap_state_sweep([1, 64], [0, 1]):       # 8^3 = 512 pre-states x 243 ops
+                yield 'sweep', s
+            for s in bitmap_seq_sweep(2):
+                yield 'seq', s
+        else:
+            for s in bitmap_state_sweep([1, 64, 130], [0, 1]):  # 16^3 pre-states x 243 ops
+                yield 'sweep', s
+            for s in bitmap_seq_sweep(3):
+                yield 'seq', s
+
+
+def run(chk):
+    r = chk.prove()
+    impl, model = build()
+    chk.cov['trusted_base'] += ['extraction: ExtrOcamlBasic only, no Extract Constant/Inductive of our own',
+                                'ocaml/driver_c19.ml, harness/c19_adt.c (parse + print only)']
+    chk.cov['rule'] = ('op scripts (corpus, seeded random biased to word boundaries / aliasing, exhaustive sweeps) run on '
+                      'the real headers (harness/c19_adt.c) and on the extracted Coq model; every return value and a '
+                      'full dump after every op are compared; a case is non-trivial when it has >= 3 ops; distinct by '
+                      'script text')
+    bad = []
+    nscripts = 0
+    batch = []
+
+    def flush():
+        nonlocal batch
+        if batch:
+            bad.extend(run_both(impl, model, batch))
+            batch = []
+    for origin, s in script_stream(chk):
+        nops = s.count(';') + 1
+        chk.count(s, nontrivial=nops >= 3)
+        kind = s.split()[0]
+        chk.dist('kinds', kind)
+        chk.dist('origin', origin)
+        chk.dist('script_len', '1-3' if nops <= 3 else '4-20' if nops <= 20 else '21-100' if nops <= 100 else '>100')
+        if origin in ('random', 'corpus', 'seq'):
+            for o in s.split(':', 1)[1].split(';'):
+                w = o.split()
+                if w:
+                    chk.dist('ops', kind + '.' + w[0])
+        else:
+            chk.dist('ops', kind + '.(sweep ops)', nops)
+        if nscripts < 4 or (origin != 'random' and chk.cov['origin'][origin] == 1):
+            chk.sample(s[:600])
+        nscripts += 1
+        batch.append(s)
+        if len(batch) >= 2000 or sum(len(x) for x in batch[-1:]) > 100000 and len(batch) >= 200:
+            flush()
+            if len([b for b in bad if b[3] == 'diff']) >= 20:
+                break
+    flush()
+    chk.log('%d scripts, %d disagreements' % (nscripts, len(bad)))
+    diffs = [b for b in bad if b[3] == 'diff']
+    books = [b for b in bad if b[3] == 'book']
+    seen = set()
+    for s, a, b, v in sorted(diffs, key=lambda x: len(x[0]))[:6]:
+        small = shrink_script(impl, model, s, 'diff')
+        if small in seen:
+            continue
+        seen.add(small)
+        ra = vlib.run_lines(impl, [small], timeout=20)[1]
+        rb = vlib.run_lines(model, [small])[1]
+        chk.finding('diff:' + small, dict(script=small, impl=ra, model=rb, original=s[:2000],
+                                         divergence=first_divergence(ra[0] if ra else '', rb[0] if rb else '')),
+                    'container implementation and verified model disagree on a property observable: %s' % small)
+        if len(seen) >= 3:
+            break
+    if books and not diffs:
+        s, a, b, v = min(books, key=lambda x: len(x[0]))
+        small = shrink_script(impl, model, s, 'book')
         ra = vlib.run_lines(impl, [small])[1]
         rb = vlib.run_lines(model, [small])[1]
-        chk.finding('diff:' + small, dict(script=small, impl=ra, model=rb, original=s),
-                    'container implementation and verified model disagree on: %s' % small)
+        chk.finding('tie-broken:' + small.split()[0],
+                    dict(correspondence='harness/c19_adt.c vs extracted coq/C19 model (%s)' % small.split()[0],
+                         script=small, impl=ra, model=rb,
+                         divergence=first_divergence(ra[0] if ra else '', rb[0] if rb else ''),
+                         searched='%d scripts: contents, return values, change flags and iteration order all agree; '
+                                  'only representation/capacity bookkeeping (#-tokens) differs in %d scripts'
+                                  % (nscripts, len(books))),
+                    'model/code correspondence broken on bookkeeping only (the theorems no longer describe this code): %s'
+                    % small, no_input=True)
     if not r['ok'] and not bad:
-        chk.proof_broken(r, searched='%d scripts agreed between model and implementation' % len(scripts))
+        chk.proof_broken(r, searched='%d scripts agreed between model and implementation' % nscripts)
 
 
 def replay(chk, path):
-    import json
     j = json.load(open(path))
-    impl = vlib.build_harness('c19_adt', ['c19_adt.c'], units=())
-    model = vlib.ocaml_build('c19', 'Extract_C19', ['c19x'], 'driver_c19.ml')
-    s = j['replay']['script']
-    a = vlib.run_lines(impl, [s])[1]
+    impl, model = build()
+    s = j['replay'].get('script')
+    if not s:
+        print('replay names a broken proof/tie, no script:', j.get('what'))
+        return 1
+    a = vlib.run_lines(impl, [s], timeout=20)[1]
     b = vlib.run_lines(model, [s])[1]
     print('script:', s); print('impl :', a); print('model:', b)
-    return 0 if a and b and same(a[0], b[0]) else 1
+    v = cmp_lines(a[0], b[0]) if a and b else 'diff'
+    print('verdict:', v)
+    return 0 if v == 'same' else 1
